@@ -60,25 +60,26 @@ type foundViolation struct {
 }
 
 type workerSummary struct {
-	Prop       string           `json:"prop"`
-	Race       bool             `json:"race"`
-	Runs       int              `json:"runs"`
-	Judged     int              `json:"judged"`
-	Discarded  map[string]int   `json:"discarded"`
-	Nontrivial int              `json:"nontrivial"`
-	Hashes     []uint64         `json:"nontrivial_hashes"`
-	SimTimeNs  int64            `json:"sim_time_ns"`
-	Steps      int64            `json:"steps"`
-	Decisions  int64            `json:"decisions"`
-	Switches   int64            `json:"switches"`
-	Stats      map[string]int64 `json:"stats"`
-	Violations []foundViolation `json:"violations"`
-	Samples    []interface{}    `json:"samples"`
-	WallS      float64          `json:"wall_s"`
-	Error      string           `json:"error,omitempty"`
-	From       uint64           `json:"from"`
-	To         uint64           `json:"to"`
-	StoppedAt  uint64           `json:"stopped_at"`
+	Prop                string           `json:"prop"`
+	Race                bool             `json:"race"`
+	Runs                int              `json:"runs"`
+	Judged              int              `json:"judged"`
+	Discarded           map[string]int   `json:"discarded"`
+	Nontrivial          int              `json:"nontrivial"`
+	Hashes              []uint64         `json:"nontrivial_hashes"`
+	SimTimeNs           int64            `json:"sim_time_ns"`
+	Steps               int64            `json:"steps"`
+	Decisions           int64            `json:"decisions"`
+	Switches            int64            `json:"switches"`
+	Stats               map[string]int64 `json:"stats"`
+	Violations          []foundViolation `json:"violations"`
+	Samples             []interface{}    `json:"samples"`
+	WallS               float64          `json:"wall_s"`
+	Error               string           `json:"error,omitempty"`
+	From                uint64           `json:"from"`
+	To                  uint64           `json:"to"`
+	StoppedAt           uint64           `json:"stopped_at"`
+	UnreproducibleRaces []string         `json:"unreproducible_races"`
 }
 
 var progress int64
@@ -265,6 +266,14 @@ func workerBatch(t *testing.T, a workerArgs) int {
 					rec = tp.Recorded()
 					rf.Minimised = false
 				}
+			}
+			if hasClause(oc, v.Clause) == nil && strings.HasSuffix(v.Clause, ".race") {
+				// a genuine report (ThreadSanitizer has no false positives and the scheduler adds no edges), but
+				// one the detector does not raise again on the same schedule: it cannot be handed out with a
+				// replay file. It is kept in the summary; the driver decides what to do with it.
+				sum.UnreproducibleRaces = append(sum.UnreproducibleRaces, "run "+strconv.FormatUint(idx, 10)+": "+v.Sig+"\n"+v.Detail)
+				delete(seenV, key)
+				continue
 			}
 			if hasClause(oc, v.Clause) == nil {
 				sum.Error = "violation " + v.Clause + " of run " + strconv.FormatUint(idx, 10) + " did not reproduce from its own tape (nondeterminism in the harness)"
